@@ -449,6 +449,11 @@ def check(cx):
     if fi and ud:
         cx.verdict(p.reaches(ud.id, fi.id), r10, "undo_delete-reinserts", ud.where(), "undo_delete reaches DmlExecutor::insert",
                    "undo_delete no longer re-inserts through DmlExecutor::insert (re-derive this rule)")
+        # the branch may sit in insert itself or in a helper of the executor that insert calls
+        fam = [fi] + [p.fns[x] for x in sorted(p.reach_forward([fi.id])) if x in p.fns and x != fi.id and p.fns[x].impl_adt == "runtime::dml::DmlExecutor"
+                      and p.fns[x].name not in ("maintain_secondary_indexes", "update", "delete")]
+        holder = [g for g in fam if any(c.callee.endswith("Btree::<Acc>::update") for c in g.calls())]
+        fi = holder[0] if holder else fi
         ups = [c for c in fi.calls() if c.callee.endswith("Btree::<Acc>::update")]
         marks = [c for c in fi.calls() if c.callee == "storage::tuple::Tuple::is_deleted"]
         status = {"multithreading::coordinator::Snapshot::is_committed_before_snapshot", "multithreading::coordinator::Snapshot::is_transaction_aborted",
